@@ -52,6 +52,15 @@ def run(ctx):
     jh += ctx.drv("jsonhellos", {"ids": pad_ids, "n": 0, "sni": "example.com", "padlens": PADLENS}, prog="gen", name="jh4", timeout=1200)
     jh += ctx.drv("jsonhellos", {"ids": pad_ids, "n": 0, "sni": "a-rather-long-server-name.subdomain.of.some.example-domain.org",
                                  "padlens": PADLENS}, prog="gen", name="jh5", timeout=1200)
+    # one JSON document per extension name the importer knows (names of the dictionary whose type ExtensionFromID turns into
+    # a JSON-capable extension), compared on the wire with the raw import, type by type
+    EXT_BASES = ["Chrome-100", "Firefox-105", "Chrome-58", "Firefox-55"]
+    jx = ctx.drv("jsonexts", {"sni": "example.com", "bases": EXT_BASES}, prog="gen", name="jx", timeout=1200)
+    ext_skipped = {e["name"]: e["why"] for e in jx if e["ev"] == "JsonExtSkipped"}
+    ext_docs = [e for e in jx if e["ev"] == "JsonHello"]
+    if len(ext_docs) < 20 or not any(e["id"] == "ext:channel_id_old" for e in ext_docs):
+        raise vlib.Machinery("C32 vacuity: only %d per-extension JSON documents (skipped: %r)" % (len(ext_docs), ext_skipped))
+    jh += ext_docs
     long_sni = ".".join(["w" * 60, "x" * 60, "y" * 60, "z" * 50, "example.com"])      # pushes mid-size hellos above 511 bytes
     jh += ctx.drv("jsonhellos", {"ids": pad_ids, "n": 1, "sni": long_sni, "padlens": PADLENS}, prog="gen", name="jh6", timeout=1200)
     jh += ctx.drv("jsonhellos", {"ids": RANDOMIZED, "n": 40 if ctx.quick else 400, "sni": "example.com"}, prog="gen", name="jh3", timeout=1200)
@@ -110,9 +119,12 @@ def run(ctx):
         rows = list(ctx.drv("dicts", {}, prog="gen", name="dicts_again"))
         ndict = len(rows)
         by_sni = {}
+        ext_again = False
         for sig, items in rejected.items():
             for ev, why in items:
-                if ev["ev"] == "JsonHello":
+                if ev["ev"] == "JsonHello" and ev["id"].startswith("ext:"):
+                    ext_again = True
+                elif ev["ev"] == "JsonHello":
                     g = by_sni.setdefault(bytes(ev["sni"]).decode(), {"ids": set(), "pads": set(), "plain": False})
                     g["ids"].add(ev["id"])
                     if ev.get("padlen"):
@@ -122,6 +134,9 @@ def run(ctx):
         for k, (sni, g) in enumerate(sorted(by_sni.items())):
             rows += ctx.drv("jsonhellos", {"ids": sorted(g["ids"]), "n": 4 if g["plain"] else 0, "sni": sni, "padlens": sorted(g["pads"])},
                             prog="gen", name="jh_again%d" % k, timeout=1200)
+        if ext_again:
+            rows += [e for e in ctx.drv("jsonexts", {"sni": "example.com", "bases": EXT_BASES}, prog="gen", name="jx_again", timeout=1200)
+                     if e["ev"] == "JsonHello"]
         rj, _ = validate(ctx, rows, "c32_again")
         resigs = {sig_of(w) for _, w in rj}
     for sig, items in sorted(rejected.items()):
@@ -146,7 +161,7 @@ def run(ctx):
            "rule": "evaluations = entries of the value-indexed tables resolved through their name-indexed twin (exhaustive over %d table pairs) + parrot/randomized wire hellos put through raw import and JSON import; distinct = table entries + ClientHelloIDs whose JSON-built hello was compared with the raw-import hello" % len(dicts),
            "samples": [{"table": dicts[0]["table"], "first_entry": {"value": int.from_bytes(bytes(dicts[0]["vi"][0]["v"]), "big"), "name": bytes(dicts[0]["vi"][0]["n"]).decode()}},
                        {"id": good["id"], "json": bytes(good["json"]).decode()[:400]}],
-           "tables": len(dicts), "table_entries": nentries, "hellos": len(jh), "hellos_compared": compared, "explicit_padding_lengths": PADLENS, "explicit_non_boring_padding_compared": explicit,
+           "tables": len(dicts), "table_entries": nentries, "hellos": len(jh), "hellos_compared": compared, "per_extension_documents": sorted(e["id"][4:] for e in ext_docs), "per_extension_skipped": ext_skipped, "explicit_padding_lengths": PADLENS, "explicit_non_boring_padding_compared": explicit,
            "explicit_padding_by_unpadded_size": unp,
            "not_describable_in_json": {k: sorted(v) for k, v in undescribed.items()},
            "exhaustive": False, "exhaustive_part": "all entries of all %d exported table pairs" % len(dicts)}
